@@ -196,7 +196,7 @@ func (e Env) l4(r *rand.Rand, v6 bool, src, dst netip.Addr, mac refdec.MAC, f *F
 	case c < 10:
 		f.L4 = "tcp"
 		h := refdec.TCPHdr{Src: uint16(r.Intn(65536)), Dst: pick(r, uint16(80), uint16(443), uint16(r.Intn(65536))), Seq: r.Uint32(), Ack: r.Uint32(),
-			Flags: uint16(r.Intn(512)), Window: uint16(r.Intn(65536)), Csum: uint16(r.Intn(65536)), Urgent: uint16(r.Intn(65536))}
+			Flags: uint16(r.Intn(4096)), Window: uint16(r.Intn(65536)), Csum: uint16(r.Intn(65536)), Urgent: uint16(r.Intn(65536))}
 		if r.Intn(3) == 0 {
 			h.Options = make([]byte, 4*(1+r.Intn(10)))
 		}
